@@ -73,4 +73,16 @@ func init() {
 		Assumptions: []string{"go/types + go/cfg model of the working tree"},
 		ThoroughConfigs: []string{"elpscheck"},
 	})
+	registerProp(PropSpec{ID: "C07",
+		Rules: []string{"GENSYM.format", "BIND.fresh-scope", "CALLERS.markMacExpand", "MACROEXP.bound", "MUT.view", "MUT.grow", "TRO.block-first"},
+		Explanation: "macro call protocol and gensym naming",
+		Assumptions: []string{"go/types + go/cfg model of the working tree"},
+		ThoroughConfigs: []string{"elpscheck"},
+	})
+	registerProp(PropSpec{ID: "C10",
+		Rules: []string{"DET.map-range", "DET.ptr-format", "MAP.entries-sorted", "MAP.backing-fresh", "STATE.package-vars", "SORT.total-order"},
+		Explanation: "no observable value depends on map order, addresses or process-wide state",
+		Assumptions: []string{"go/types model of the working tree", "fmt prints maps with sorted keys"},
+		ThoroughConfigs: []string{"elpscheck"},
+	})
 }
